@@ -238,6 +238,20 @@ func queries(ms *yang.Modules, errs []error, withGetModule bool) []string {
 	return out
 }
 
+// treesOf: what ToEntry answers with for every module and submodule right now (all node fields),
+// and the errors recorded on the trees.
+func treesOf(ms *yang.Modules) []string {
+	var out []string
+	for _, m := range allModules(ms) {
+		e := yang.ToEntry(m)
+		lib.DumpTree(m.Kind()+":"+m.FullName(), e, &out)
+		for _, x := range lib.CanonErrs(e.GetErrors()) {
+			out = append(out, "T-"+x+" in "+m.FullName())
+		}
+	}
+	return out
+}
+
 func nameMaps(ms *yang.Modules) map[string]*yang.Module {
 	out := map[string]*yang.Module{}
 	for k, v := range ms.Modules {
@@ -377,7 +391,14 @@ func runGo(h History) GoRes {
 		// after EVERY operation: what a caller can look up at any time (namespaces, modules and
 		// submodules by name and revision) must be answered as by the value that never saw the
 		// refused texts
-		if d := rescorr.Diff(queries(ms, lookupsOnly, false), queries(shadow, lookupsOnly, false)); d != "" {
+		qa, qb := queries(ms, lookupsOnly, false), queries(shadow, lookupsOnly, false)
+		if (op.Op == "load" && sr.Load != "accepted") || op.Op == "walk" {
+			// right after a refused load (and after a walk, which converts everything anyway): the
+			// trees ToEntry answers with, node by node, and the errors recorded on them - a reader
+			// that comes before the next Process must see what it would see without the refused text
+			qa, qb = append(qa, treesOf(ms)...), append(qb, treesOf(shadow)...)
+		}
+		if d := rescorr.Diff(qa, qb); d != "" {
 			d = strings.Replace(d, "| model:", "| the same history without the refused loads:", 1)
 			sr.ShadowDiff = strings.Replace(d, "go:", "history:", 1)
 		}
@@ -899,7 +920,7 @@ func main() {
 	res.Distribution["histories_outside_model"] = outside
 	res.Distribution["crashes"] = crashes
 	res.Notes = append(res.Notes,
-		"after EVERY operation (also right after an accepted or refused load, before the next Process) the lookups that need no processed trees - FindModuleByNamespace for every namespace in play and an unknown one, FindModule for every module / submodule name and name@revision and an unknown name - are put to the one value and to a SHADOW value that runs the same history (same Process, read and walk operations) without the loads the one value refused, and compared with the source position of what is returned (Go vs Go): a refused text leaves no trace for every later load, processing run and query",
+		"after EVERY operation (also right after an accepted or refused load, before the next Process) the lookups that need no processed trees - FindModuleByNamespace for every namespace in play and an unknown one, FindModule for every module / submodule name and name@revision and an unknown name - are put to the one value and to a SHADOW value that runs the same history (same Process, read and walk operations) without the loads the one value refused, and compared with the source position of what is returned (Go vs Go): a refused text leaves no trace for every later load, processing run and query; right after every REFUSED load (and after every walk) also the trees ToEntry answers with for every module and submodule are compared node by node, all fields, with the errors recorded on them - a reader that comes before the next Process sees the processed trees (submodule nodes, augments, implied cases, deviations), not a raw conversion",
 		"after every Process the same queries are put to the one value and to the batch value and compared (Go vs Go; the session model has no such operations): FindModuleByNamespace for every namespace in play and an unknown one, FindModule for every module / submodule name and name@revision and an unknown name, Entry.Find from every module root to up to 12 nodes of its tree and across every import, GetModule of the first module (every third operation; it processes once more); Entry.Namespace and Entry.InstantiatingModule of every node are part of the dump (ns=, im=); the walk operation asks the namespace and name questions between loads as a perturbation",
 		"every process op is checked twice: Go (one value) vs Go (batch of the accepted texts on a fresh value) on an extended dump (all node fields, submodule trees, identity value lists with source positions), and Go vs the Lean session model on the projection "+strings.Join(keys, ",")+" + errors",
 		"3 of 4 generated histories (and every corpus history) send the raw texts: generic parser, AST builder and registry of the model decide whether a text is accepted, and the answer to every load is compared with goyang's (syntax / build / add); 1 of 4 (and every corpus history a second time) send the statement trees of the real generic parser with goyang's verdict on parser and builder as a flag, duplicates and non-module nodes are then still decided by the model and compared",
